@@ -3,15 +3,37 @@ package main
 import (
 	"fmt"
 	"os"
+	"runtime/debug"
+	"strings"
 	"time"
 )
 
 func main() {
+	// go/packages resolves "go" through this process's PATH, not cfg.Env.
+	os.Setenv("PATH", goRoot+"/bin:"+os.Getenv("PATH"))
+	os.Unsetenv("GOWORK")
 	if len(os.Args) < 2 {
 		fmt.Fprintln(os.Stderr, "usage: btcdlint probe|discover|check ...")
 		os.Exit(2)
 	}
 	switch os.Args[1] {
+	case "discover":
+		p, err := loadProgram(LoadOpts{})
+		if err != nil {
+			fmt.Println("ERR", err)
+			os.Exit(1)
+		}
+		for _, n := range os.Args[2:] {
+			mode := ""
+			if i := strings.Index(n, "@"); i >= 0 {
+				n, mode = n[:i], n[i+1:]
+			}
+			if err := discoverGuards(p, n, mode); err != nil {
+				fmt.Println("ERR", err)
+			}
+		}
+	case "check":
+		os.Exit(runCheck(os.Args[2:]))
 	case "probe":
 		t0 := time.Now()
 		p, err := loadProgram(LoadOpts{})
@@ -24,4 +46,44 @@ func main() {
 			fmt.Println(n, p.Func(n))
 		}
 	}
+}
+
+func runCheck(args []string) int {
+	tier := os.Getenv("VERIF_TIER")
+	var id string
+	for i := 0; i < len(args); i++ {
+		switch args[i] {
+		case "--tier":
+			i++
+			tier = args[i]
+		default:
+			id = args[i]
+		}
+	}
+	if tier == "" {
+		tier = "quick"
+	}
+	d := props[id]
+	if d == nil {
+		fmt.Println("unknown property", id)
+		return 2
+	}
+	r := newReport(id, tier)
+	func() {
+		defer func() {
+			if e := recover(); e != nil {
+				r.fail("internal", "analysis panic", "", fmt.Sprint(e)+"\n"+string(debug.Stack()))
+			}
+		}()
+		p, err := loadProgram(LoadOpts{})
+		if err != nil {
+			r.fail("load", "program", "", err.Error())
+			return
+		}
+		r.Analysed["root_packages"] = len(p.Pkgs) + len(p.V2.Pkgs)
+		r.Analysed["packages_with_deps"] = len(p.All)
+		r.Analysed["ssa_functions"] = p.NFuncs + p.V2.NFuncs
+		d.run(p, r)
+	}()
+	return r.finish(d.explanation, append(append([]string{}, commonAssumptions...), d.assumptions...))
 }
